@@ -15,11 +15,8 @@ S = 'server.rs'; TP = 'to_proto.rs'; FP = 'from_proto.rs'; VF = 'vfs.rs'
 # the trait impl (methods return boxed futures of spawned tasks) stays outside; the bodies of its handler closures are moved out (R15)
 U.external_impls = {'<Server as LanguageServer>'}
 U.item_attr(S, 'impl', r'<Server as LanguageServer>', '#[verifier::external]')
-U.item_attr(S, 'struct', r'Server', '#[verifier::external_body]')
-U.item_attr(VF, 'struct', r'Vfs', '#[verifier::external_body]')
-U.item_attr(VF, 'impl', r'.*', '#[verifier::external]')
+U.item_attr(VF, 'impl', r'<Url as UrlExt>', '#[verifier::external]')
 U.item_attr(VF, 'trait', r'UrlExt', '#[verifier::external]')
-U.item_attr(S, 'impl', r'Server', '#[verifier::external]')
 
 LOC_REQ = C('li_file(line_index) == file_range.file', name='a location is converted with the line index of the file it lies in')
 U.fn(TP, 'location', attrs=['external_body'], requires=[LOC_REQ])
@@ -69,9 +66,8 @@ simple_handler('document_link', 'DocumentLinkParams', 'Vec<DocumentLink>', 'IdeD
 simple_handler('folding_range', 'FoldingRangeParams', 'Vec<FoldingRange>', 'IdeFoldingRange', 'FoldingRange', 'folding_range', 'folding_ranges')
 
 # ---- published diagnostics (inherent impl; its spawned closure captures the client socket and the version)
-U.external_impls.add('Server')
 U.desugar_for = True
-U.fn(S, 'Server::update_diagnostics',
+U.fn(S, 'Server::update_diagnostics', attrs=['external'],
      lift=[dict(closure=0, name='publish_all_diagnostics', sig='(snap: ServerSnapshot, _p: (), mut client: ClientSocket, diag_version: i32)',
                 replace='move |snap, p| publish_all_diagnostics(snap, p, client, diag_version)', attrs=['exec_allows_no_decreases_clause'],
                 loops={0: dict(invariant=[C('grouped_by_file(hmi_map(&__it0))',
@@ -88,3 +84,18 @@ U.fn(S, 'Server::update_diagnostics',
                               call='o_publish(&mut client, params)', why='sending the notification (and its `expect` on a closed client socket) is outside C09')]),
            dict(closure=1, name='diagnostic_item', sig='(line_index: &LineIndex, diag: Diagnostic) -> (ret: async_lsp::lsp_types::Diagnostic)',
                 requires=[C('li_file(line_index) == diag.location.file')], replace='|diag| diagnostic_item(&line_index, diag)')])
+
+# ---- C12: the editor's buffers are the source of truth
+U.prepend(VF, 'broadcast use {ax_filepath_key_model, axiom_random_state_builds_valid_hashers};')
+U.insert_in(VF, 'impl', 'Vfs', """
+    /// the editor's texts of the open documents
+    pub closed spec fn open_docs(&self) -> Map<FilePath, String> { self.open_documents@ }
+""")
+U.fn(VF, 'Vfs::set_open_document', tags='C12',
+     ensures=[C('final(self).open_docs() == old(self).open_docs().insert(path, text)', 'C12', name='the editor\'s text is recorded as the document\'s open buffer')])
+U.fn(VF, '<Vfs as FileSystem>::assign_or_get_file_id', attrs=['external_body'], tags='C12', ensures=['final(self).open_docs() == old(self).open_docs()'])
+U.fn(VF, '<Vfs as FileSystem>::path_for_file', attrs=['external_body'], tags='C12')
+U.fn(VF, '<Vfs as FileSystem>::read_content', tags='C12',
+     ensures=[C('self.open_docs().contains_key(*file_path) ==> ret == Some(self.open_docs()[*file_path])', 'C12', name='an open document is read from the editor\'s buffer, not from the disk'),
+              C('!self.open_docs().contains_key(*file_path) ==> ret == disk_read(&file_path.0)', 'C12', name='a document that was never opened is read from the disk')])
+fc = U.fn(S, 'Server::set_file_content', tags='C12')
